@@ -168,6 +168,79 @@ func main() {
 			}
 		}(w)
 	}
+	// a name that is flipped between two fixed sources, re-parsed every time (restoring an earlier
+	// source must give that source's tree): its only writer renders it right after each
+	// registration and must see the version just registered; two more renderers must see one of the two
+	flipSrc := [2]string{"FA<{% for i := 0; i < 3; i++ sep , %}{%= i %}{% endfor %}>fa", "FB[{%= user.Id %}]fb"}
+	flipOut := func(k int, id string) string {
+		if k == 0 {
+			return "FA<0,1,2>fa"
+		}
+		return "FB[" + id + "]fb"
+	}
+	regFlip := func(k int) {
+		t, err := dyntpl.Parse([]byte(flipSrc[k]), false)
+		if err != nil {
+			panic(err)
+		}
+		dyntpl.RegisterTplKey("flip", t)
+	}
+	regFlip(0)
+	wg.Add(1)
+	go func() {
+		defer wg.Done()
+		u := &testobj.TestObject{Id: "w"}
+		var buf bytes.Buffer
+		for k := 1; ; k++ {
+			select {
+			case <-stop:
+				return
+			default:
+			}
+			regFlip(k % 2)
+			atomic.AddInt64(&res.Registers, 1)
+			ctx := dyntpl.AcquireCtx()
+			ctx.Set("user", u, ins)
+			buf.Reset()
+			err := dyntpl.Write(&buf, "flip", ctx)
+			dyntpl.ReleaseCtx(ctx)
+			if err != nil {
+				note(&res.Errors, err.Error())
+			} else if buf.String() != flipOut(k%2, "w") {
+				note(&res.Stale, fmt.Sprintf("after RegisterTplKey(flip, Parse(source %d)) returned, its writer's own render shows %q", k%2, buf.String()))
+			}
+			if k%3 == 0 {
+				runtime.Gosched()
+			}
+		}
+	}()
+	for r := 0; r < 2; r++ {
+		wg.Add(1)
+		go func(r int) {
+			defer wg.Done()
+			id := fmt.Sprintf("f%d", r)
+			u := &testobj.TestObject{Id: id}
+			var buf bytes.Buffer
+			for {
+				select {
+				case <-stop:
+					return
+				default:
+				}
+				ctx := dyntpl.AcquireCtx()
+				ctx.Set("user", u, ins)
+				buf.Reset()
+				err := dyntpl.Write(&buf, "flip", ctx)
+				dyntpl.ReleaseCtx(ctx)
+				atomic.AddInt64(&res.Renders, 1)
+				if err != nil {
+					note(&res.Errors, err.Error())
+				} else if out := buf.String(); out != flipOut(0, id) && out != flipOut(1, id) {
+					note(&res.Bad, fmt.Sprintf("render of flip (Id %s): %q is not the output of either registered version", id, out))
+				}
+			}
+		}(r)
+	}
 	// vary GOMAXPROCS while the workers run
 	start := time.Now()
 	_ = seed
